@@ -91,7 +91,8 @@ impl SchemaInner {
                             std::iter::once(field.ty.type_name())
                                 .chain(field.arguments.values().map(|arg| arg.ty.type_name()))
                         })
-                        .flatten(),
+                        .flatten()
+                        .chain(interface.implements.iter().map(AsRef::as_ref)),
                 )?,
                 Type::Union(union) => check(&self.types, &union.possible_types)?,
                 Type::Subscription(subscription) => check(
